@@ -51,7 +51,8 @@ def from_max_simplices(SC):
     max_simplices = SC.edges.maximal()
     H = Hypergraph()
     H.add_nodes_from(SC.nodes)  # to keep node order and isolated nodes
-    H.add_edges_from([list(SC.edges.members(e)) for e in max_simplices])
+    # (members, attr) pairs: unambiguous whatever the node labels are
+    H.add_edges_from([(list(SC.edges.members(e)), {}) for e in max_simplices])
     return H
 
 
